@@ -127,6 +127,7 @@ func (s *Storage[PK, Col]) AddRow(primaryKey PK) {
 	// 配置列数据并提前扩容
 	for _, c := range s.columns {
 		c.data.Grow([]int{index})
+		c.data.Set(index, nil) // 复用的无效行不能保留旧数据
 	}
 
 }
@@ -155,6 +156,9 @@ func (s *Storage[PK, Col]) AddRows(primaryKeys []PK) {
 	// 扩容列
 	for _, c := range s.columns {
 		c.data.Grow(indexes)
+		for _, index := range indexes {
+			c.data.Set(index, nil) // 复用的无效行不能保留旧数据
+		}
 	}
 }
 
